@@ -141,6 +141,50 @@ func c17a(c *Ctx) {
 					}
 				}
 			}
+			// the key or value of "some" iteration must not leave the loop (`for k := range m { first = k; break }`)
+			for _, r := range *next.Referrers() {
+				ex, isEx := r.(*ssa.Extract)
+				if !isEx || ex.Index == 0 || ex.Referrers() == nil {
+					continue
+				}
+				seenE := map[ssa.Value]bool{}
+				var escapes func(v ssa.Value, depth int) bool
+				escapes = func(v ssa.Value, depth int) bool {
+					if seenE[v] || depth > 6 || v.Referrers() == nil {
+						return false
+					}
+					seenE[v] = true
+					for _, u := range *v.Referrers() {
+						switch y := u.(type) {
+						case *ssa.Phi:
+							if !body[y.Block()] {
+								return true
+							}
+							if escapes(y, depth+1) {
+								return true
+							}
+						case *ssa.Convert:
+							if escapes(y, depth+1) {
+								return true
+							}
+						case *ssa.Field:
+							if escapes(y, depth+1) {
+								return true
+							}
+						case *ssa.Return:
+							return true
+						default:
+							if !body[u.Block()] {
+								return true
+							}
+						}
+					}
+					return false
+				}
+				if bad == "" && escapes(ex, 0) {
+					bad = "lets the " + []string{"", "key", "value"}[ex.Index] + " of whichever entry comes first leave the loop"
+				}
+			}
 			if bad != "" {
 				c.Bad(key, pos, "the body of a range over a map "+bad+", whose effect depends on the iteration order")
 				return
@@ -258,7 +302,20 @@ func c17b(c *Ctx) {
 		instrs(fn, func(in ssa.Instruction) {
 			switch x := in.(type) {
 			case *ssa.Store:
-				if g, ok := rootValue(x.Addr).(*ssa.Global); ok {
+				g, ok := rootValue(x.Addr).(*ssa.Global)
+				if !ok {
+					// through a pointer held in a package-level variable (`var guard = &T{}`; guard.n++)
+					if _, isField := x.Addr.(*ssa.FieldAddr); isField {
+						if gg := globalOrigin(x.Addr); gg != nil && gg.Pkg != nil && c.W.InRepoPkg(gg.Pkg.Pkg) {
+							g, ok = gg, true
+						}
+					} else if _, isIdx := x.Addr.(*ssa.IndexAddr); isIdx {
+						if gg := globalOrigin(x.Addr); gg != nil && gg.Pkg != nil && c.W.InRepoPkg(gg.Pkg.Pkg) {
+							g, ok = gg, true
+						}
+					}
+				}
+				if ok {
 					n++
 					c.Bad(fk+"/writes-global["+g.Name()+"]", c.W.Pos(x.Pos()), "package-level variable "+g.Name()+" is written outside initialisation: state survives from one compilation to the next")
 				}
@@ -519,6 +576,31 @@ func c17d(c *Ctx) {
 			key := c.W.FuncKey(fn) + "/map-update[" + pretty(c.term(fn, mu.Map)) + "]"
 			c.Check(localMap(mu.Map, fn), key, c.W.Pos(mu.Pos()), "the map updated was created in this function (or captured from its creator)", "an emitter function updates a map handed in from outside ("+pretty(c.term(fn, mu.Map))+"): state leaks between scripts / statements")
 		})
+	}
+	// the font cache is filled once: p.fonts is stored only where it was found nil (a later
+	// replacement — with a copy that names another default font, say — makes the layout of a
+	// text depend on the format() calls before it)
+	{
+		n := 0
+		for _, fn := range c.W.FuncsOf("parser") {
+			if isTestFunc(c.W, fn) {
+				continue
+			}
+			for _, st := range storesToField(fn, "parser", "Parser", "fonts") {
+				if _, fresh := rootValue(st.Addr).(*ssa.Alloc); fresh {
+					continue
+				}
+				n++
+				guard := false
+				for _, l := range c.mustLits(fn, st.Block()) {
+					if l == "+($0.fonts == nil)" {
+						guard = true
+					}
+				}
+				c.Check(guard, fmt.Sprintf("parser/font-cache-filled-once/%s#%d", c.W.FuncKey(fn), n), c.W.Pos(st.Pos()), "the font cache is stored only where it was found empty", fn.Name()+" replaces the parser's font table although one is already loaded: later texts would be laid out with a different table than earlier ones")
+			}
+		}
+		c.Check(n >= 1, "parser/font-cache-filled-once", "-", fmt.Sprintf("%d stores to Parser.fonts outside construction", n), "no lazy store to Parser.fonts found")
 	}
 	// parser: fields written while parsing
 	allowed := map[string]string{
